@@ -2291,7 +2291,7 @@ fn main() {
 	let (nl_bits, b_random, c2_leaves, c2_programs, c3_hi_bits, c3_lo_bits, d_leaves, e_leaves) = if san {
 		(8u32, 5_000usize, 64usize, 6usize, 10u64, 6u64, 24usize, 60usize)
 	} else if thorough {
-		(15, 3_000_000, 4096, 320, 20, 13, 512, 3000)
+		(15, 2_000_000, 4096, 320, 20, 13, 512, 3000)
 	} else {
 		(11, 250_000, 1024, 48, 17, 10, 128, 300)
 	};
